@@ -182,13 +182,32 @@ func newBitEval(p *Program, fn *ssa.Function) *bitEval {
 			}
 		}
 	}
-	for _, b := range fn.Blocks {
-		all := len(retBlocks) > 0
-		for _, rb := range retBlocks {
-			// the recover block returns too but is not part of normal flow
-			if rb.Comment == "recover" {
-				continue
+	// success returns: those whose error result (if the function has one) is the nil constant
+	hasErr := false
+	if res := fn.Signature.Results(); res.Len() > 0 && res.At(res.Len()-1).Type().String() == "error" {
+		hasErr = true
+	}
+	var okRets []*ssa.BasicBlock
+	for _, rb := range retBlocks {
+		if rb.Comment == "recover" {
+			continue
+		}
+		if !hasErr {
+			okRets = append(okRets, rb)
+			continue
+		}
+		for _, ins := range rb.Instrs {
+			if ret, ok := ins.(*ssa.Return); ok && isNilConst(retValue(ret, len(ret.Results)-1)) {
+				okRets = append(okRets, rb)
 			}
+		}
+	}
+	if len(okRets) == 0 {
+		okRets = retBlocks
+	}
+	for _, b := range fn.Blocks {
+		all := len(okRets) > 0
+		for _, rb := range okRets {
 			if !(b == rb || b.Dominates(rb)) {
 				all = false
 			}
@@ -388,10 +407,13 @@ func (e *bitEval) eval1(v ssa.Value) bv {
 		if x.Op == token.MUL {
 			// load: array element, cursor, or opaque field/cell
 			if ia, ok := x.X.(*ssa.IndexAddr); ok {
-				if i, ok := e.index(ia.Index); ok {
+				_, isArr := ia.X.Type().Underlying().(*types.Pointer)
+				if i, ok := e.index(ia.Index); ok && isArr {
 					return e.readByte(e.arrayRootOf(ia.X), i)
 				}
-				return bvUnknown()
+				// element of a slice / variable index: an opaque input
+				w, s := typeWidth(x.Type())
+				return bvInput(e.name(x), w, s)
 			}
 			if _, isCur := e.cursor[x.X]; isCur {
 				return bvUnknown() // cursor values are only used as indices
@@ -399,6 +421,12 @@ func (e *bitEval) eval1(v ssa.Value) bv {
 			if al, ok := x.X.(*ssa.Alloc); ok {
 				if s := singleStoreDirect(al); s != nil {
 					return e.eval(s)
+				}
+			}
+			// a field that was stored earlier in this run yields the stored value (tag.DataSize = ...; tag.DataSize >>= 8)
+			if f, _, ok := fieldAddr(x.X); ok {
+				if v, ok := e.fields[f.Name()]; ok {
+					return v
 				}
 			}
 			w, s := typeWidth(x.Type())
@@ -570,6 +598,13 @@ func (e *bitEval) step(ins ssa.Instruction) {
 		}
 		if f, _, ok := fieldAddr(x.Addr); ok {
 			e.fields[f.Name()] = e.eval(x.Val)
+			for k := range e.memo {
+				if u, ok := k.(*ssa.UnOp); ok {
+					if f2, _, ok := fieldAddr(u.X); ok && f2 == f {
+						delete(e.memo, k)
+					}
+				}
+			}
 		}
 	case *ssa.Call:
 		n := calleeName(&x.Call)
